@@ -1,5 +1,5 @@
 (* C12 - checks of the regenerated tables (Gen/SelectTables.v), re-proved on every run by vm_compute. *)
-From Coq Require Import List String Bool.
+From Coq Require Import List String Bool ZArith.
 Require Import MD.Select.Syntax MD.Select.Model MD.Select.Run MD.Gen.SelectTables.
 Import ListNotations.
 Local Open Scope string_scope.
@@ -16,3 +16,38 @@ Lemma gen_standard_residues :
   /\ forallb (fun w => match assoc w (amino_codes gen_cfg) with Some _ => false | None => true end)
        (water_names gen_cfg) = true.
 Proof. vm_compute. repeat split; reflexivity. Qed.
+
+Require Import MD.Select.ParsePrint MD.Select.Precedence.
+
+(* no operator spelling occurs twice in the regenerated level table: the hypothesis of parse_print *)
+Lemma gen_ops_nodup : NoDup (all_ops gen_cfg).
+Proof. apply nodup_strb_sound. vm_compute. reflexivity. Qed.
+
+Lemma gen_conv_ops_nodup : NoDup (all_ops (conventional gen_cfg)).
+Proof. apply nodup_strb_sound. vm_compute. reflexivity. Qed.
+
+(* every operator of a level has a meaning in the class tables, every level is non-empty *)
+Lemma gen_levels_complete :
+  forallb (fun l => match lv_kind l with
+                    | KBinary => forallb (fun o => match assoc o (bin_sem gen_cfg) with Some _ => true | None => false end) (lv_ops l)
+                    | _ => true
+                    end && negb (match lv_ops l with [] => true | _ => false end)) (levels gen_cfg) = true.
+Proof. vm_compute. reflexivity. Qed.
+
+(* a non-trivial well-formed tree over the regenerated tables:  not (name CA CB or resid 1 to 3) and mass < 5 *)
+Definition demo_tree : expr :=
+  EBin (EUn "not " (EBin (EInList "name" [LWord "CA"; LWord "CB"]) [("or", ERange "resid" (LNum "1") (LNum "3"))]))
+       [("and", EBin (EKw "mass") [("<", ELit (LNum "5"))])].
+
+Lemma demo_tree_wf : wf gen_cfg demo_tree.
+Proof. cbn. repeat split; try reflexivity; try discriminate. Qed.
+
+Lemma demo_atoms_sorted : Sorted.StronglySorted Z.lt (map a_index demo_atoms).
+Proof. repeat constructor. Qed.
+
+Lemma demo_select : select_str gen_cfg false demo_atoms "name CA C or water" = Sel [1%Z; 2%Z; 3%Z; 4%Z].
+Proof. vm_compute. reflexivity. Qed.
+
+(* every documented keyword, synonym and operator spelling is present with its documented meaning *)
+Lemma gen_documented_meaning : documented_meaning gen_cfg = true.
+Proof. vm_compute. reflexivity. Qed.
